@@ -29,6 +29,8 @@ def run(ctx):
     ctx.assume('np.pad(reflect, odd) makes progress in the re-padding loop of get_padded_extrema (loop listed as '
                'unbounded, trusted)')
     ctx.rule(siftcore.rule_iterate_algebra, 'C04.R1', gni)
+    from . import l2
+    ctx.rule(l2.rule_inplace_input_dtype, 'C04.R1', ['emd.sift.get_next_imf'])
     ctx.rule(siftcore.rule_stop_dispatch, 'C04.R2', gni)
     ctx.rule(siftcore.rule_stop_predicates, 'C04.R3')
     ctx.rule(siftcore.rule_bounded_loop, 'C04.R4', gni)
